@@ -101,6 +101,7 @@ struct Engine {
 	virtual ~Engine() {}
 	virtual const char *name() = 0;
 	virtual void generate(Rng &rng, Plan &p, const std::string &profile, int tier) = 0;
+	virtual void prepare(const Plan &p) {}             // before the run becomes active (no hooks): caches, calibration
 	virtual void setup(const Plan &p) = 0;             // main context, task 0
 	virtual void exec(int task, const Op &op) = 0;     // task context
 	virtual void end_of_plan(int task) {}              // task context, right after the task's last plan op
@@ -179,9 +180,9 @@ struct SimMutex {
 	void unlock();
 	void lock_shared();
 	void unlock_shared();
-	bool is_locked() { return owner != 0; }
+	bool is_locked() { return owner != -1; }
 	// state (only touched by the uninstrumented runtime)
-	int owner;       // task id or 0
+	int owner;       // task id or -1
 	int shared;      // number of shared holders
 	uint16_t shared_by[MAXT];
 	VC clk;
